@@ -1122,7 +1122,14 @@ def _impl_cfg(case):
                 return [e[0][1], e[0][2], e[0][3], e[0][4], a, ux]
 
             def popen(args, **kw):
+                import gc
                 ph = [e for e in env.photo() if e[0] not in infra]
+                for gen in (1, 2):     # see snap(): a socket whose bind failed in a reload, not yet collected
+                    live = set(k.fileno() for k in arb.sockets.values())
+                    if not [e for e in ph if e[2] == "s" and e[0] not in live]:
+                        break
+                    gc.collect(gen)
+                    ph = [e for e in env.photo() if e[0] not in infra]
                 src0, exc = _run_preexec(kw.get("preexec_fn"))
                 if exc is not None:
                     raise subprocess.SubprocessError("Exception occurred in preexec_fn.")
